@@ -16,9 +16,12 @@ TOOLNOTE = ("Decided by execution on generated inputs (differential / oracle bas
 TEXTS = {
     "C01": dict(technique="Lean 4 theorems on a runtime model + differential correspondence",
                 design_ref="DESIGN.md §5 C01",
-                level_text=("Kernel-checked theorems (Properties/C01.lean) that a failing expression and every &/! predicate consume nothing, "
-                            "for every expression kind incl. memoization and left recursion; the value-shape/PEG-semantics part of C01 is "
-                            "so far decided by model/implementation correspondence on generated cases (refinement to an independent PEG spec in progress)."),
+                level_text=("Kernel-checked theorems (Properties/C01.lean): (a,b) a failing expression and every &/! predicate consume nothing, "
+                            "for every expression kind incl. memoization and left recursion; (c,d) REFINEMENT: without Memoize, MaxExpressions and left-recursive rules "
+                            "the runtime model computes exactly the independent 150-line PEG specification Spec.eval (Spec/Peg.lean) - success/failure, value shape, end "
+                            "position, labels in scope, stores, errors and the complete code-block trace - for every grammar, code environment, input, depth and reachable "
+                            "state (C01_runtime_is_peg, C01_parse_is_peg; proof in Proofs/Refine.lean). The specification itself is ALSO run against the implementation "
+                            "(spec oracle in the check), and the memoized / left-recursive / budgeted variants are tied to the plain one by twin streams and C06/C08/C16."),
                 level_note=RT_NOTE),
     "C05": dict(technique="Lean 4 theorems on a runtime model + differential correspondence",
                 design_ref="DESIGN.md §5 C05",
